@@ -349,4 +349,26 @@ def deserVersioned {α} (rest : Json → α) (ms : Option (List Mapping)) (d : J
       | some (m :: r) => bindE (convertDict d (m :: r)) fun d' => .ok (rest d')
   | _ => .error .typeErr
 
+/-- `Deserializer.deserialize`: `keep_undefined=None` stays falsy when the class allows additional properties
+    and becomes `True` otherwise; an explicit value is passed on -/
+def adjustedKeep (keep : Option Bool) (addl : Bool) : Bool :=
+  match keep with
+  | some b => b
+  | none => !addl
+
+/-- the undeclared keys `deserialize_structure_internal` hands to the constructor (`kwargs = {k: v for k, v in
+    input_dict.items() if k not in field_by_name and keep_undefined and (additional_props is True or not
+    ignore_invalid_additional_properties_in_deserialization)}`; non-trusted path, class without serialization
+    mappers or `_constants`, the global flag at its default `True`).  They are taken from `input_dict`, i.e.
+    from the version-converted document, never from the caller's document. -/
+def undeclaredKept (fields : List String) (keep : Option Bool) (addl : Bool) (input : Json) : Obj :=
+  match input with
+  | .obj kvs => if adjustedKeep keep addl && addl then kvs.filter (fun p => !fields.contains p.1) else []
+  | _ => []
+
+/-- the undeclared keys a `Versioned` class keeps when deserializing `d` -/
+def deserExtras (fields : List String) (keep : Option Bool) (addl : Bool) (ms : Option (List Mapping))
+    (d : Json) : R Obj :=
+  deserVersioned (undeclaredKept fields keep addl) ms d
+
 end Typedpy.Convert
